@@ -117,3 +117,34 @@
         }
         best
     }
+    // R7 (A-iter): `h.iter().map(|h_i| h_i.0.iter().sum::<i32>()).sum::<i32>()` is rewritten to vp_hint_weight(&h): the sum of all
+    // coefficients, which for 0/1 coefficients is the number of ones (proved below)
+    pub fn vp_hint_weight<const K: usize>(h: &[R; K]) -> (r: i32)
+        requires K <= 8, forall|i: int, j: int| 0 <= i < K && 0 <= j < 256 ==> 0 <= #[trigger] h[i].0[j] <= 1,
+        ensures r as int == hint_count(h@, 256 * K),
+    {
+        let mut s: i32 = 0;
+        let mut i: usize = 0;
+        while i < K
+            invariant i <= K, K <= 8, s as int == hint_count(h@, 256 * i), 0 <= s <= 256 * i,
+                forall|ii: int, j: int| 0 <= ii < K && 0 <= j < 256 ==> 0 <= #[trigger] h[ii].0[j] <= 1,
+            decreases K - i,
+        {
+            let mut j: usize = 0;
+            while j < 256
+                invariant j <= 256, i < K, K <= 8, s as int == hint_count(h@, 256 * i + j), 0 <= s <= 256 * i + j,
+                    forall|ii: int, jj: int| 0 <= ii < K && 0 <= jj < 256 ==> 0 <= #[trigger] h[ii].0[jj] <= 1,
+                decreases 256 - j,
+            {
+                proof {
+                    let n = 256 * i + j + 1;
+                    assert((n - 1) / 256 == i as int && (n - 1) % 256 == j as int);
+                    assert(h@[i as int] == h[i as int]);
+                }
+                s = s + h[i].0[j];
+                j += 1;
+            }
+            i += 1;
+        }
+        s
+    }
